@@ -274,8 +274,8 @@ def rule_once(ctx):
     inst = ("call", "Prover::instances", (SELF,))
     one = ("eq", inst, 1)
     proves = [o for o in outs if o[2][1] == "Prover::prove"]
-    seq = [o for o in proves if one in (tests_of(o[0]) or [])]
-    par = [o for o in proves if one not in (tests_of(o[0]) or [one])]
+    seq = [o for o in proves if tests_of(o[0]) is not None and one in tests_of(o[0])]
+    par = [o for o in proves if tests_of(o[0]) is not None and one not in tests_of(o[0])]
     seq_t = tests_of(seq[0][0]) if len(seq) == 1 else None
     par_t = tests_of(par[0][0]) if len(par) == 1 else None
     ctx.add("ONCE", "one-per-branch", len(proves) == 2 and len(seq) == 1 and len(par) == 1 and seq_t == [one] and par_t in ([], [("not", (one,))]), site,
